@@ -790,6 +790,16 @@ func (g *G) mapObjectResult(meth *m.Method) {
 				tr.Headers, tr.Cookies, tr.Body = r.Headers, r.Cookies, r.Body
 				h.Responses = append([]*m.Response{tr}, h.Responses...)
 			}
+			// the untagged response may be declared anywhere among the tagged ones
+			// (goa itself moves it behind them when it generates the encoders)
+			if n := len(h.Responses); n >= 2 {
+				if pos := rapid.IntRange(0, n-1).Draw(t, "untaggedpos"); pos != n-1 {
+					rs := append([]*m.Response{}, h.Responses[:n-1]...)
+					rs = append(rs[:pos], append([]*m.Response{h.Responses[n-1]}, rs[pos:]...)...)
+					h.Responses = rs
+					g.feat("untagged-response-not-last")
+				}
+			}
 			g.feat("tagged-response")
 		}
 	}
